@@ -1,5 +1,20 @@
 """Per-property plans: which models are checked, which behaviours are generated, which drivers run."""
 
+def _cfg(precision=100, mode="HalfEven", low=5, high=15, pad=1000):
+    return {"RUST_BIGDECIMAL_DEFAULT_PRECISION": str(precision), "RUST_BIGDECIMAL_DEFAULT_ROUNDING_MODE": mode,
+            "RUST_BIGDECIMAL_FMT_EXPONENTIAL_LOWER_THRESHOLD": str(low), "RUST_BIGDECIMAL_FMT_EXPONENTIAL_UPPER_THRESHOLD": str(high),
+            "RUST_BIGDECIMAL_FMT_MAX_INTEGER_PADDING": str(pad)}
+
+
+# every value of every knob at least twice over the thorough list; quick = the first four
+C20_CONFIGS = [
+    _cfg(7, "Up", 9, 2, 5), _cfg(2, "Floor", 1, 40, 1000), _cfg(34, "HalfDown", 5, 0, 0), _cfg(250, "Ceiling", 1, 15, 5),
+    _cfg(1, "Down", 5, 2, 1000), _cfg(3, "HalfUp", 9, 40, 0), _cfg(16, "HalfEven", 1, 0, 5), _cfg(100, "Up", 9, 15, 0),
+    _cfg(1, "Ceiling", 9, 0, 1000), _cfg(2, "HalfDown", 5, 15, 5), _cfg(3, "Down", 1, 2, 0), _cfg(7, "Floor", 5, 40, 5),
+    _cfg(16, "HalfUp", 1, 2, 1000), _cfg(34, "HalfEven", 9, 40, 1000), _cfg(100, "Floor", 5, 0, 5), _cfg(250, "HalfUp", 5, 15, 0),
+    _cfg(7, "HalfDown", 1, 15, 1000), _cfg(16, "Down", 9, 0, 0), _cfg(34, "Up", 1, 2, 5), _cfg(100, "Ceiling", 9, 2, 1000),
+]
+
 PLANS = {
     "C01": dict(
         check_forms=["add", "sub", "mul"],
@@ -44,6 +59,7 @@ PLANS = {
     ),
     "C17": dict(drive=True, shard=1500),
     "C18": dict(mc=[], gen=[], drive=True),
+    "C20": dict(configs=dict(quick=C20_CONFIGS[:4], thorough=C20_CONFIGS), drive=False, shard=2500),
     "C19": dict(
         check_forms=["add", "sub", "mul"],
         mc=[dict(model="MC_Programs", quick="MC_Programs_quick.cfg", thorough="MC_Programs_thorough.cfg")],
